@@ -6,7 +6,11 @@ import (
 	"fmt"
 	"os"
 
+	"github.com/massnetorg/mass-core/blockchain"
 	"github.com/massnetorg/mass-core/consensus"
+	"massnet.org/mass-wallet/config"
+	"massnet.org/mass-wallet/masswallet/keystore"
+	"massnet.org/mass-wallet/masswallet/keystore/hdkeychain"
 	"massnet.org/mass-wallet/api"
 	"massnet.org/mass-wallet/masswallet"
 )
@@ -38,4 +42,11 @@ func main() {
 	z("TaskQueueCap10", cap(masswallet.NewWalletTaskChan(10).C))
 	z("MASSIP0001MaxValidPeriod", consensus.MASSIP0001MaxValidPeriod)
 	z("MASSIP0002BindingLockedPeriod", consensus.MASSIP0002BindingLockedPeriod)
+	// literals of the selection model (Tx/Select.v) and of the key-chain model (Keys/Gap.v), tied by
+	// C02_selector_capacity_is_the_code / C12_limits_are_the_code
+	z("MaxStandardTxSize", blockchain.GetMaxStandardTxSize())
+	z("HardenedKeyStart", uint64(hdkeychain.HardenedKeyStart))
+	z("MaxAddressesPerAccount", uint64(keystore.MaxAddressesPerAccount))
+	z("DefaultAddressGapLimit", config.DefaultAddressGapLimit)
+	z("MaxMemPoolExpire", masswallet.MaxMemPoolExpire)
 }
